@@ -29,6 +29,21 @@ NORMAL: EventPriority = EventPriority(1)
 """Default priority used by events."""
 
 
+def exclusive_copy(exc: BaseException) -> BaseException:
+    """A copy of a failure - same type, same args - with a traceback of its
+    own and the original as its cause."""
+    try:
+        dup = type(exc)(*exc.args)
+    except Exception:
+        # the constructor does not take its own args tuple back (a custom
+        # signature): rebuild the object without calling it
+        dup = type(exc).__new__(type(exc))
+        dup.args = exc.args
+        dup.__dict__.update(exc.__dict__)
+    dup.__cause__ = exc
+    return dup
+
+
 class Event:
     """An event that may happen at some point in time.
 
@@ -335,8 +350,7 @@ class Process(Event):
                     # Create an exclusive copy of the exception for this
                     # process to prevent traceback modifications by other
                     # processes.
-                    exc = type(event._value)(*event._value.args)
-                    exc.__cause__ = event._value
+                    exc = exclusive_copy(event._value)
                     event = self._generator.throw(exc)
             except StopIteration as e:
                 # Process has terminated.
